@@ -98,17 +98,22 @@ func c11Catalogue() []c11Attack {
 
 func genC11(tier string, seed uint64, run int) *Scenario {
 	cat := c11Catalogue()
-	if tier == "thorough" && run >= 3*len(cat) {
+	total := len(cat) + len(c11Transcripts())
+	if tier == "thorough" && run >= 3*total {
 		return nil
 	}
-	a := cat[run%len(cat)]
+	if idx := run % total; idx >= len(cat) {
+		// harness-built transcripts that fail exactly one guard (check_c11b.go)
+		return genC11Transcript(seed, run, (idx-len(cat))+(run/total)*len(c11Transcripts()), total)
+	}
+	a := cat[run%total]
 	p := map[string]interface{}{}
 	for k, v := range a.Proto {
 		p[k] = v
 	}
 	p["attack"], p["b"], p["round"], p["akind"], p["guard"] = a.ID, a.B, a.Round, a.Kind, a.Guard
-	p["variant"] = run / len(cat) // thorough repeats the catalogue with other entropy / positions
-	p["cells_total"] = len(cat)
+	p["variant"] = run / total // thorough repeats the catalogue with other entropy / positions
+	p["cells_total"] = total
 	return &Scenario{Check: "C11", Kind: "c11", Seed: seed, Run: run, P: p, Sched: SchedConfig{Strategy: "fifo"}}
 }
 
@@ -133,6 +138,7 @@ func primeWith(r *rand.Rand, bits int, mod4 int64) *big.Int {
 			p.SetBit(p, 1, 0)
 		}
 		for k := 0; k < 4000; k++ {
+			Tick()
 			if p.ProbablyPrime(12) && p.BitLen() == bits {
 				return p
 			}
@@ -298,6 +304,7 @@ func driveC11(rc *RunCtx) {
 						k.SetBit(k, 0, 0)
 						k.SetBit(k, 1, 1) // k = 2 mod 4 so that q = kp+1 = 3 mod 4
 						c := new(big.Int).Add(new(big.Int).Mul(k, P), big.NewInt(1))
+						Tick()
 						if c.ProbablyPrime(12) && new(big.Int).Mul(P, c).BitLen() == 2048 {
 							Q = c
 						}
@@ -358,6 +365,7 @@ func driveC11(rc *RunCtx) {
 					k.SetBit(k, 247, 1)
 					k.SetBit(k, 0, 0)
 					c := new(big.Int).Add(new(big.Int).Mul(k, P), big.NewInt(1))
+					Tick()
 					if c.ProbablyPrime(12) && new(big.Int).Mul(P, c).BitLen() == 2048 {
 						return new(big.Int).Mul(P, c)
 					}
